@@ -51,6 +51,7 @@ def main (args : List String) : IO UInt32 := do
   match args with
   | ["time"] => loopPure stdin stdout timeStep; return 0
   | ["dkgsm"] => loopState stdin stdout dkgStep {}; return 0
+  | ["net"] => loopState stdin stdout netStep {}; return 0
   | ["cache"] => loopState stdin stdout cacheStep (Drand.Beacon.Cache.empty 96); return 0
   | ["chain", backend] =>
     let (cap, st) := chainInit backend
